@@ -31,8 +31,8 @@ ASSUMPTIONS = ['the labelling function is deterministic and is evaluated by the 
                'metadata None and the empty dict are the same observation of "no metadata for this id"',
                "one-to-many 'divide' is compared exactly on the grid 1/(64*lcm(group counts)) (the implementation's "
                'float sums are snapped to that grid when they are within 1e-6 of it)',
-               'a collapse in which no group reaches min_group_size returns a 0x0 matrix with the other axis ids '
-               '(incoherent, reported under C05); only ids and metadata are compared there']
+               'a collapse in which no label reaches min_group_size is refused by the constructor (TableException: the '
+               'empty value list has no shape); the oracle accepts that refusal']
 
 AXES = ['observation', 'sample']
 _INFO = {}
@@ -49,7 +49,7 @@ def make_f(d):
     if k == 'hash':
         return lambda i, m: 'g%d' % _h(i, d['mod'])
     if k == 'md':
-        return lambda i, m: m[d['key']]
+        return lambda i, m: m.get(d['key'])      # m[key] on the defaultdict handed out would insert the key
     if k == 'const':
         return lambda i, m: d['label']
     if k == 'inj':
@@ -134,7 +134,7 @@ def make_gen(case):
                 raise IndexError('short pathway')
     else:
         def f(i, m):
-            for pw in (m[g['key']] or []):
+            for pw in (m.get(g['key']) or []):
                 yield (pw, pw[g['level']])
     return f
 
@@ -156,7 +156,7 @@ def gen_labelling(rng, s, axis, for_collapse):
     if s[mdk] is not None and all(m and 'g' in m for m in s[mdk]):
         kinds += ['md', 'md']
     if not for_collapse:
-        kinds += ['list', 'none_some', 'none_some', 'eqkeys', 'badmap', 'emptymap']
+        kinds += ['list', 'none_some', 'none_some', 'eqkeys'] + (['badmap', 'emptymap'] if rng.random() < 0.5 else [])
     k = rng.choice(kinds)
     if k == 'md':
         if not for_collapse and rng.random() < 0.5:
@@ -208,7 +208,7 @@ def gen_collapse(rng):
     axis = rng.choice(AXES)
     s = _spec(rng)
     return {'op': 'collapse', 'spec': s, 'axis': axis, 'f': gen_labelling(rng, s, axis, True),
-            'norm': rng.random() < 0.5, 'min_group_size': rng.choice([1, 1, 1, 2, 2, 3, 0]),
+            'norm': rng.random() < 0.5, 'min_group_size': rng.choice([1, 1, 1, 1, 1, 2, 2, 3, 0]),
             'include_md': rng.random() < 0.7, 'mode': 'add' if rng.random() < 0.95 else 'bogus'}
 
 
@@ -218,7 +218,8 @@ PATHS = [['k__A', 'p__x'], ['k__A', 'p__y'], ['k__B', 'p__x'], ['k__B', 'p__z', 
 def gen_o2m(rng):
     axis = rng.choice(AXES)
     mdk = 'omd' if axis == 'observation' else 'smd'
-    s = _spec(rng, md=rng.choice(['text', 'group', 'num', 'group', 'obs', 'samp', 'none']),
+    own = 'obs' if axis == 'observation' else 'samp'
+    s = _spec(rng, md=rng.choice(['text', 'group', 'num', 'group', own, own, 'none' if rng.random() < 0.4 else 'text']),
               values=rng.choice(['counts', 'small', 'signed', 'dyadic']))
     ids = _axis_ids(s, axis)
     if rng.random() < 0.5 and s[mdk] is not None:
@@ -504,15 +505,20 @@ def oracle_collapse(case, obs):
     ax, ot, axmd, otmd = _keys(axis)
     if case['mode'] not in ('add', 'divide'):
         return [] if obs[0] == 'err' else ['an unknown one_to_many_mode was not refused']
-    if obs[0] != 'ok':
-        return ['collapse raised: %s' % obs]
-    r = obs[1]
     labels = labels_for(case['f'], src[ax], src[axmd])
     M = _mat(src, axis)
     groups = {}
     for n, lab in enumerate(labels):
         groups.setdefault(lab, []).append(n)
     want = {lab: rows for lab, rows in groups.items() if len(rows) >= case['min_group_size']}
+    if not want and obs == ['err', 1]:
+        # no label reaches min_group_size: the code builds a 0 x 0 matrix and the constructor's size
+        # check refuses it (TableException).  The text promises vectors for qualifying labels only;
+        # a refusal is accepted here and documented in docs/C11.md.
+        return []
+    if obs[0] != 'ok':
+        return ['collapse raised: %s' % obs]
+    r = obs[1]
     if sorted(r[ax]) != sorted(want):
         return ['collapsed ids %s, expected one per label of size >= %d: %s' % (r[ax], case['min_group_size'], sorted(want))]
     if r[ot] != src[ot]:
@@ -666,10 +672,4 @@ def shrink(case):
             c = copy.deepcopy(case); c[flag] = False; yield c
 
 
-def _sig_f6(case, io, mo, fails):
-    """remove_empty drops vectors whose sum is <= 0 although they have non-zero entries"""
-    return case['op'] == 'partition' and case['remove_empty'] and any('expected' in f for f in fails) and \
-        any(v < 0 for row in case['spec']['mat'] for v in row)
-
-
-SIGNATURES = {'F6': _sig_f6}
+SIGNATURES = {}
